@@ -150,7 +150,9 @@ func (e *Engine) loopHeader(fr *Frame, h *ssa.BasicBlock, st *State) *State {
 		if isDeferStack(cell.Typ) {
 			continue
 		}
-		ns.cells[cell] = e.freshSV(cell.Typ, "L"+fmt.Sprint(ord)+"_"+cell.Name, st.pc, ns)
+		hv := e.freshSV(cell.Typ, "L"+fmt.Sprint(ord)+"_"+cell.Name, st.pc, ns)
+		e.assumeWF(cell.Typ, hv) // any Go value of the type is well formed (slice headers)
+		ns.cells[cell] = hv
 	}
 	if heapAll {
 		nwm := e.vc.declare("wm", "Int")
